@@ -1080,6 +1080,10 @@ func (vc *VC) execFrom(st *State, b *ssa.BasicBlock, from *ssa.BasicBlock) {
 				vc.paths++
 				return
 			case *ssa.Panic:
+				if vc.contract != nil && vc.contract.Panics {
+					vc.paths++
+					return
+				}
 				vc.oblige(st, "false", "no-panic:explicit", "safety", posString(vc.w, x.Pos()), vc.props(), "panic statement is unreachable", "")
 				vc.paths++
 				return
